@@ -74,16 +74,20 @@ pub fn c01(tier: Tier) -> Vec<Scenario> {
         s.oracles = route.clone();
         out.push(s);
 
-        let mut s = Scenario::new("C01/R(2,2,2)");
+        let mut s = Scenario::new("C01/R(2,2,1)");
         s.clients = vec![
             client(vec![single(OpKind::Bind, "a0")]),
             client(vec![single(OpKind::Compare, "b0")]),
-            client(vec![start("s0", Chain::Direct), Call::Next, Call::Next, Call::Next, Call::Finish]),
+            client(vec![start("s0", Chain::Direct), Call::Next, Call::Next, Call::Finish]),
             client(vec![Call::Search { marker: "s1".into(), timeout: None }]),
         ];
-        s.plans.insert("s0".into(), plan_items(&[E, R]));
-        s.plans.insert("s1".into(), plan_items(&[E, I]));
-        s.bogus = vec![BogusKind::DupCompleted, BogusKind::UnusedId];
+        // (one item per search, one unsolicited PDU, one select! start branch: anything more
+        // exceeds 4*10^7 generated states; the races between branches and longer item
+        // sequences are covered by the smaller scenarios)
+        s.plans.insert("s0".into(), plan_items(&[E]));
+        s.plans.insert("s1".into(), plan_items(&[R]));
+        s.bogus = vec![BogusKind::UnusedId];
+        s.select_starts = vec![1];
         s.oracles = route.clone();
         out.push(s);
     }
@@ -163,7 +167,7 @@ pub fn c01(tier: Tier) -> Vec<Scenario> {
 
     // byte level with responses beyond 127 octets (long-form outer length): every cut position,
     // also inside the length octets
-    out.push(long_response_bytes("C01"));
+    out.extend(long_response_bytes("C01"));
 
     // byte level: every frame may be cut anywhere (Net(One) / Net(Frame) / Net(All))
     let mut s = Scenario::new("C01/R(1,1,0)-bytes");
@@ -177,19 +181,26 @@ pub fn c01(tier: Tier) -> Vec<Scenario> {
     out
 }
 
-/// two single operations whose responses are longer than 127 octets (130- and 300-character
-/// markers come back as the diagnostic text), delivered byte by byte or whole
-pub fn long_response_bytes(prop: &str) -> Scenario {
-    let mut s = Scenario::new(&format!("{}/long-responses-bytes", prop));
-    let m130 = "L".repeat(130);
-    let m300 = "M".repeat(300);
-    s.clients = vec![client(vec![single(OpKind::Bind, &m130)]), client(vec![single(OpKind::Compare, &m300)])];
-    s.plans.insert(m300, Plan { rc: 6, res_ctrls: true, ..Default::default() });
-    s.byte_mode = true;
-    s.net_steps = vec![NetStep::One, NetStep::All];
-    s.select_starts = vec![3];
-    s.oracles = Oracles { route: true, ids: true, ..Default::default() };
-    s
+/// single operations whose responses are longer than 127 octets (the 130- / 300-character marker
+/// comes back as the diagnostic text), delivered byte by byte or whole; one scenario per length
+/// (a second, short operation runs alongside the first)
+pub fn long_response_bytes(prop: &str) -> Vec<Scenario> {
+    let mut out = vec![];
+    for (n, kind, rc) in [(130usize, OpKind::Bind, 0u32), (300, OpKind::Compare, 6)] {
+        let mut s = Scenario::new(&format!("{}/long-response-{}-bytes", prop, n));
+        let m = "L".repeat(n);
+        s.clients = vec![client(vec![single(kind, &m)])];
+        if n == 130 {
+            s.clients.push(client(vec![single(OpKind::Delete, "d")]));
+        }
+        s.plans.insert(m, Plan { rc, res_ctrls: n == 300, ..Default::default() });
+        s.byte_mode = true;
+        s.net_steps = vec![NetStep::One, NetStep::All];
+        s.select_starts = vec![3];
+        s.oracles = Oracles { route: true, ids: true, ..Default::default() };
+        out.push(s);
+    }
+    out
 }
 
 // ------------------------------------------------------------------------------------------ C13
